@@ -63,7 +63,52 @@ func checkC14(R *Run) {
 				"holds "+which+" of the same connection", fmt.Sprintf("a transaction is written to a client's connection without a per-connection mutex held (held: %v): concurrent senders interleave the bytes of transactions larger than one Write", L.at[ci.(ssa.Instruction)].names()))
 		}
 	}
-	R.floor("conn-write-lock", 1)
+	// the lock must cover the whole transaction: the io.Copy that drains a *Transaction towards a registered client
+	nT := 0
+	for _, fn := range P.Funcs {
+		if isClientLibrary(fn) {
+			continue
+		}
+		for _, ci := range callsIn(fn) {
+			c := ci.Common()
+			n := calleeName(c)
+			if n != "io.Copy" && n != "io.CopyN" && n != "io.CopyBuffer" {
+				continue
+			}
+			st, _ := concreteBelowInterface(c.Args[1])
+			if typeName(st) != "*hotline.Transaction" {
+				continue
+			}
+			// destination: a registered client's connection (directly or through a wrapper built from the client)
+			toClient := P.reaches(c.Args[0], func(x ssa.Value) bool {
+				if fa, ok := x.(*ssa.FieldAddr); ok {
+					f, _ := fieldOf(fa)
+					return f == "hotline.ClientConn.Connection"
+				}
+				if cv := callValue(x); cv != nil && calleeName(&cv.Call) == "(hotline.ClientManager).Get" {
+					return true
+				}
+				return false
+			})
+			if !toClient {
+				continue // the login sequence's own raw connection / ban notice: nobody else can address it yet
+			}
+			nT++
+			held := false
+			for k := range L.at[ci.(ssa.Instruction)] {
+				if strings.HasPrefix(k.Field, "hotline.ClientConn.") {
+					held = true
+				}
+			}
+			R.check(held, "conn-write-lock", fmt.Sprintf("%s: copy of a whole Transaction to a client #%d", fname(fn), nT), P.ipos(ci),
+				"the per-connection mutex is held across the copy of the whole transaction",
+				"the copy of a whole Transaction towards a client's connection is not inside the per-connection critical section (locking inside each Write is not enough: io.Copy hands a transaction over in 32 KiB pieces, between which another sender's transaction can be written)")
+		}
+	}
+	if nT == 0 {
+		R.bad("conn-write-lock", "transaction copies to clients", "-", "no io.Copy of a Transaction towards a registered client found (mechanism moved)")
+	}
+	R.floor("conn-write-lock", 2)
 	// raw connection writes in the login sequence only before registration
 	if fn := R.mustFn("(*hotline.Server).handleNewConnection"); fn != nil {
 		var rwc ssa.Value
@@ -519,6 +564,91 @@ func checkC19(R *Run) {
 		R.check(nW > 0 && nEff >= 2 && bad == "", "post-order", fname(fn), P.pos(fn.Pos()), "announcement and reply only after MessageBoard.Write succeeded", "a post is announced / acknowledged on a path where writing it to the board did not succeed: "+bad)
 	}
 	R.floor("post-order", 2)
+
+	// reload-section: reading the file and replacing the in-memory text happen under one hold of the store mutex
+	R.rule("reload-section", "Reload of the board / agreement reads the file and assigns the in-memory text inside one critical section of the store mutex (otherwise a post acknowledged between the read and the assignment is overwritten in memory and lost with the next post)")
+	for _, it := range []struct{ fn, mu, data string }{
+		{"(*mobius.FlatNews).Reload", "mobius.FlatNews.mu", "mobius.FlatNews.data"},
+		{"(*mobius.Agreement).Reload", "mobius.Agreement.mu", "mobius.Agreement.data"},
+	} {
+		fn := R.mustFn(it.fn)
+		if fn == nil {
+			continue
+		}
+		R.analysed(it.fn)
+		var rd, st ssa.Instruction
+		for _, ci := range callsIn(fn) {
+			if n := calleeName(ci.Common()); n == "os.ReadFile" || n == "os.Open" {
+				rd = ci.(ssa.Instruction)
+			}
+		}
+		eachInstr(fn, func(ins ssa.Instruction) {
+			if s2, ok := ins.(*ssa.Store); ok {
+				if fa, ok := s2.Addr.(*ssa.FieldAddr); ok {
+					if f, _ := fieldOf(fa); f == it.data {
+						st = s2
+					}
+				}
+			}
+		})
+		ok := rd != nil && st != nil && L.held(rd, it.mu, "this") && L.held(st, it.mu, "this")
+		// and not released in between: the lock set at every instruction between read and store contains the mutex
+		if ok {
+			between, _ := mustPassAfterUntil(rd, st, func(x ssa.Instruction) bool {
+				cx, isCall := x.(ssa.CallInstruction)
+				if !isCall {
+					return false
+				}
+				if _, isDefer := x.(*ssa.Defer); isDefer {
+					return false
+				}
+				id, op, isLock := P.lockOp(fn, cx.Common())
+				return isLock && op == "unlock" && id.Field == it.mu
+			})
+			ok = between
+		}
+		R.check(ok, "reload-section", it.fn, P.pos(fn.Pos()), "file read and assignment under one hold of the mutex", "the file is read outside the critical section in which the text is assigned: a post written in between is lost from memory (and from disk with the next post)")
+	}
+	R.floor("reload-section", 2)
+
+	// post-format: the line-break conversion covers the user's text
+	R.rule("post-format", "what the post handler writes to the board, announces and stores is the result of replacing line feeds by carriage returns in the *formatted* post, i.e. the conversion's input contains the request's text")
+	if postHandler != nil {
+		fn := postHandler
+		nW := 0
+		for _, ci := range callsIn(fn) {
+			c := ci.Common()
+			if !(c.IsInvoke() && c.Method.Name() == "Write") {
+				continue
+			}
+			if fl, ok := loadedField(c.Value); !ok || fl != "hotline.Server.MessageBoard" {
+				continue
+			}
+			nW++
+			converted := derivesAll(c.Args[0], func(x ssa.Value) bool {
+				rc, ok := x.(*ssa.Call)
+				if !ok || (calleeName(&rc.Call) != "strings.ReplaceAll" && calleeName(&rc.Call) != "bytes.ReplaceAll") {
+					return false
+				}
+				from, _ := constString(stripConv(rc.Call.Args[1]))
+				to, _ := constString(stripConv(rc.Call.Args[2]))
+				if from != "\n" || to != "\r" {
+					return false
+				}
+				return P.reaches(rc.Call.Args[0], func(y ssa.Value) bool {
+					if fa, ok := y.(*ssa.FieldAddr); ok {
+						f, _ := fieldOf(fa)
+						return f == "hotline.Field.Data"
+					}
+					return false
+				})
+			})
+			R.check(converted, "post-format", fname(fn)+": text written to the board", P.ipos(ci), "LF→CR conversion applied to the formatted post including the user's text", "the text written to the board is not the LF→CR conversion of the whole formatted post: line feeds in the user's text are stored and served unconverted")
+		}
+		if nW == 0 {
+			R.bad("post-format", fname(fn), P.pos(fn.Pos()), "no write to the message board found")
+		}
+	}
 
 	R.checkCursor("cursor", func(n string) bool {
 		return n == "(*mobius.FlatNews).Read" || n == "(*mobius.Agreement).Read"
